@@ -2,6 +2,8 @@
 From Coq Require Import List NArith Bool.
 From AGH Require Import Base.Run Base.NetAddr Base.RuleEngine Model.Access Proofs.Access.
 From AGH Require Import Model.AccessPersist Proofs.AccessPersist Proofs.AccessQuestion.
+From AGH Require Import Model.AccessGlue Proofs.AccessGlue.
+From AGH Require Model.TLSSettings Model.TLSGlue.
 From AGH Require Base.Dom Model.ClientID Proofs.ClientID.
 Import ListNotations.
 Local Open Scope N_scope.
@@ -524,3 +526,75 @@ Theorem C03_in_only_refuted :
     (the_question_in_only [mkQ version_bind_fqdn 16 1]) = BRefused.
 Proof. exact in_only_refuted. Qed.
 Print Assumptions C03_in_only_refuted.
+
+(** * The configuration path home -> dnsforward (round 8) *)
+
+(** newDNSTLSConfig with encryption enabled and a key pair that loads hands
+    the configured server_name and strict flag to the DNS server for every
+    combination of the HTTPS / DoT / DoQ ports and bind addresses. *)
+Theorem C03_server_name_handed_over_regardless_of_listeners : forall s addrs,
+  Model.TLSSettings.t_enabled s = true ->
+  exists d, Model.TLSGlue.new_dns_tls_config false s true addrs = Some d /\
+            Model.TLSGlue.dt_server_name d = Model.TLSSettings.t_server_name s /\
+            Model.TLSGlue.dt_strict d = Model.TLSSettings.t_strict s.
+Proof. exact server_name_handed_over. Qed.
+Print Assumptions C03_server_name_handed_over_regardless_of_listeners.
+
+(** The hook's verdict does not depend on which listeners are enabled. *)
+Theorem C03_decision_independent_of_listeners : forall a s1 s2 addrs1 addrs2 x,
+  Model.TLSSettings.t_enabled s1 = true -> Model.TLSSettings.t_enabled s2 = true ->
+  Model.TLSSettings.t_server_name s1 = Model.TLSSettings.t_server_name s2 ->
+  Model.TLSSettings.t_strict s1 = Model.TLSSettings.t_strict s2 ->
+  before_via_home a s1 true addrs1 x = before_via_home a s2 true addrs2 x.
+Proof. exact decision_independent_of_listeners. Qed.
+Print Assumptions C03_decision_independent_of_listeners.
+
+(** Composed with the access decision: a disallowed ClientID in front of the
+    configured server name is REFUSED whatever listeners are on ... *)
+Theorem C03_disallowed_clientid_via_home_refused : forall blocked hosts s addrs x cli l c0,
+  Model.TLSSettings.t_enabled s = true ->
+  Proofs.ClientID.reaches_sni (cid_proto (cx_proto x)) (cx_http x) ->
+  Model.TLSSettings.t_server_name s <> [] ->
+  Model.ClientID.server_name_of (cid_proto (cx_proto x)) (cx_sni x) (cx_http x) = inr cli ->
+  Proofs.ClientID.immediate_sub cli (Model.TLSSettings.t_server_name s) l -> Base.Dom.valid_label l ->
+  In (ECid c0) blocked -> lower c0 = lower l ->
+  before_via_home (new_access [] blocked hosts) s true addrs x = Some BRefused.
+Proof. exact disallowed_clientid_via_home_refused. Qed.
+Print Assumptions C03_disallowed_clientid_via_home_refused.
+
+(** ... and an allowed one admits. *)
+Theorem C03_allowed_clientid_via_home_admitted : forall allowed blocked hosts s addrs x ip l c0,
+  Model.TLSSettings.t_enabled s = true ->
+  extract_clientid (mkTlsConf (Model.TLSSettings.t_server_name s) (Model.TLSSettings.t_strict s)) x = Some (lower l) ->
+  Base.Dom.valid_label l -> In (ECid c0) allowed -> lower c0 = lower l -> cx_ip x = Some ip ->
+  (forall name qt, cx_q x = Some (name, qt) ->
+     is_blocked_host (new_access allowed blocked hosts) (normalize_domain name) qt = false) ->
+  before_via_home (new_access allowed blocked hosts) s true addrs x = Some (BContinue (Some (lower l))).
+Proof. exact allowed_clientid_via_home_admitted. Qed.
+Print Assumptions C03_allowed_clientid_via_home_admitted.
+
+Example C03_via_home_premises_satisfiable :
+  let s := mk_setts true ex_srv true 0 0 853 in
+  Model.TLSSettings.t_enabled s = true /\ Model.TLSSettings.t_server_name s <> [] /\
+  Proofs.ClientID.reaches_sni (cid_proto PQUIC) None /\
+  Model.ClientID.server_name_of (cid_proto PQUIC) (Some ex_sni) None = inr ex_sni /\
+  Proofs.ClientID.immediate_sub ex_sni (Model.TLSSettings.t_server_name s) [75;105;68] /\
+  before_via_home (new_access [] [ECid ex_kid] []) s true false ex_doq_ctx = Some BRefused.
+Proof. exact via_home_premises_satisfiable. Qed.
+
+(** The variant that hands the server name over only with the DoT port set
+    is refuted: DoH and DoQ on, DoT off, the disallowed ClientID is let
+    through and the allowed one refused. *)
+Theorem C03_dot_only_refuted :
+  let s := mk_setts true ex_srv false 443 0 853 in
+  let a := new_access [] [ECid ex_kid] [] in
+  let al := new_access [ECid ex_kid] [] [] in
+  before_via_home a s true true ex_doh_name_ctx = Some BRefused /\
+  before_via_home a s true true ex_doq_ctx = Some BRefused /\
+  before_via_home_dot_only a s true true ex_doh_name_ctx = Some (BContinue None) /\
+  before_via_home_dot_only a s true true ex_doq_ctx = Some (BContinue None) /\
+  before_via_home al s true true ex_doq_ctx = Some (BContinue (Some [107;105;100])) /\
+  before_via_home_dot_only al s true true ex_doq_ctx = Some BRefused /\
+  before_via_home_dot_only a (mk_setts true ex_srv false 443 853 0) true true ex_doh_name_ctx = Some BRefused.
+Proof. exact dot_only_refuted. Qed.
+Print Assumptions C03_dot_only_refuted.
